@@ -328,6 +328,9 @@ func Run(prog *Program, ch Chooser, opt Options) *Result {
 	}
 	ex.loop(ch)
 	ex.drain()
+	if ex.res.Blind {
+		ex.res.Violation = nil // an unhooked, free-running execution decides nothing
+	}
 	return &ex.res
 }
 
@@ -350,15 +353,19 @@ func (ex *Exec) loop(ch Chooser) {
 			ex.fail("workers did not reach their first hook point", true)
 			return
 		}
-		if ev.kind == evDone && ev.hooks == 0 && len(ev.w.script) > 0 {
+		if ev.kind != evHook && ev.hooks == 0 && len(ev.w.script) > 0 {
+			// the worker ran its whole script (or into a panic) without passing a single hook: nothing can be observed
 			ex.res.Blind = true
 			ev.w.st.pt = ptDone
 			ex.finished++
 			continue
 		}
-		ex.onArrive(ev)
+		if !ex.res.Blind {
+			ex.onArrive(ev)
+		}
 	}
 	if ex.res.Blind {
+		ex.res.Violation = nil
 		return
 	}
 	finishing := false
